@@ -388,8 +388,9 @@ def owns(prop, ev, tag):
             "opts-monotone", "default-entry", "version-exact", "reserved-exact", "unused-exact", "bits-affect-result")
     if prop == "C15":
         # the acceptance rule applied to the implementation's own per-record results
-        # (a panic is neither acceptance nor rejection: C01's)
-        return e == "ctl_records" and tag in ("all-or-nothing", "error-count", "error-order", "empty-errors")
+        # (the statement promises a definite outcome for every such message -- Ok iff no record is bad, else one
+        #  error per bad record -- so a panic here contradicts it too)
+        return e == "ctl_records" and (died or tag in ("all-or-nothing", "error-count", "error-order", "empty-errors"))
     if prop == "C16":
         if e == "decode" and ev.get("enum_many"):
             return died or tag == "verdict"          # a message full of unassigned codes must still be rejected
